@@ -14,6 +14,7 @@ import (
 	"time"
 
 	"verif/sim/core"
+	"verif/sim/shrink"
 	"verif/sim/tape"
 )
 
@@ -399,8 +400,9 @@ func runReplayProcess(exe, path string, memMB int) (string, int) {
 // is written.
 func confirmCrash(o SupOpts, info core.Info, run uint64, class, replayDir, knownPath, work, stderr string) (*ViolReport, string) {
 	out := filepath.Join(work, fmt.Sprintf("confirm-%d.json", run))
+	journal := filepath.Join(work, fmt.Sprintf("journal-%d.bin", run))
 	args := []string{"worker", "-prop", o.Prop, "-base", fmt.Sprint(o.Base), "-from", fmt.Sprint(run), "-to", fmt.Sprint(run + 1),
-		"-stride", "1", "-offset", "0", "-wall", "0", "-out", out, "-replaydir", replayDir, "-known", knownPath, "-shard", "-1"}
+		"-stride", "1", "-offset", "0", "-wall", "0", "-out", out, "-replaydir", replayDir, "-known", knownPath, "-shard", "-1", "-journal", journal}
 	cmd := workerCmd(o.Exe, args, info.MemLimitMB)
 	done := make(chan error, 1)
 	var buf strings.Builder
@@ -434,11 +436,66 @@ func confirmCrash(o SupOpts, info core.Info, run uint64, class, replayDir, known
 	v := core.Violation{Class: "process-" + class, Msg: msg}
 	rf := &ReplayFile{Property: o.Prop, BaseSeed: o.Base, Run: run, RunSeed: tape.RunSeed(o.Base, o.Prop, run), Violation: v,
 		Note: "seed-only replay: the process dies before a tape can be saved; replay re-executes the run from run_seed in a child process"}
+	// the journalled tape prefix up to the death, minimised by re-executing
+	// candidates in child processes (same class = the process dies again)
+	if jb, jerr := os.ReadFile(journal); jerr == nil && len(jb) >= 8 && class == "crash" {
+		vals := make([]uint64, len(jb)/8)
+		for i := range vals {
+			for k := 0; k < 8; k++ {
+				vals[i] |= uint64(jb[8*i+k]) << (8 * uint(k))
+			}
+		}
+		tf := filepath.Join(work, fmt.Sprintf("cand-%d.json", run))
+		dies := func(c []uint64) (bool, int) {
+			b, _ := json.Marshal(c)
+			os.WriteFile(tf, b, 0o644)
+			cmd := workerCmd(o.Exe, []string{"exec-tape", "-prop", o.Prop, tf}, info.MemLimitMB)
+			outb, err := runWithTimeout(cmd, 60*time.Second)
+			used := len(c)
+			if i := strings.LastIndex(string(outb), "USED "); i >= 0 {
+				fmt.Sscanf(string(outb)[i:], "USED %d", &used)
+			}
+			if err == nil {
+				return false, used
+			}
+			if ee, ok := err.(*exec.ExitError); ok && (ee.ExitCode() == 1 || ee.ExitCode() == 3 || ee.ExitCode() == 4) {
+				return false, used
+			}
+			return true, len(c)
+		}
+		if d, _ := dies(vals); d {
+			min, st := shrink.Minimise(vals, dies, 800, 90*time.Second)
+			if d2, _ := dies(min); d2 {
+				rf.Tape = min
+				rf.Original = len(vals)
+				rf.Shrink = map[string]int{"executions": st.Execs, "from": len(vals), "to": len(min), "ms": int(st.Elapsed.Milliseconds())}
+				rf.Note = "the process dies while executing this tape; minimised by re-executing candidates in child processes; replay runs it in a child process"
+			}
+		}
+	}
 	path, werr := WriteReplay(replayDir, rf, fmt.Sprintf("%s-seed%d-run%d.json", o.Prop, o.Base, run))
 	if werr != nil {
 		return nil, werr.Error()
 	}
-	return &ViolReport{Run: run, Fingerprint: v.Fingerprint(), Class: v.Class, Msg: msg, Replay: path}, ""
+	return &ViolReport{Run: run, Fingerprint: v.Fingerprint(), Class: v.Class, Msg: msg, Replay: path, TapeFrom: rf.Original, TapeTo: len(rf.Tape), ShrinkExecs: rf.Shrink["executions"]}, ""
+}
+
+func runWithTimeout(cmd *exec.Cmd, d time.Duration) ([]byte, error) {
+	var buf strings.Builder
+	cmd.Stdout = &limitedWriter{b: &buf, max: 4096}
+	if err := cmd.Start(); err != nil {
+		return nil, err
+	}
+	done := make(chan error, 1)
+	go func() { done <- cmd.Wait() }()
+	select {
+	case err := <-done:
+		return []byte(buf.String()), err
+	case <-time.After(d):
+		cmd.Process.Kill()
+		<-done
+		return []byte(buf.String()), fmt.Errorf("timeout")
+	}
 }
 
 func firstFatal(s string) string {
